@@ -87,7 +87,7 @@ pub fn routing(trace: &[Value]) -> Vec<Value> {
                     "cls":cls,"intact":(cls == "gen" || cls == "dup") && e["damaged"] != true,
                     "kind":kind,"long":e["long"] == true,
                     "zl":cl == 0 && rd.is_empty(),
-                    "reset":kind == "conn" && e["rtok"] != "no","src":e["src"],"rrem":if kind == "conn" { e["pre"]["path"]["rem"].clone() } else { json!(-1) }}));
+                    "reset":kind == "conn" && e["rtok"] != "no","tokuid":e["tokuid"].as_i64().unwrap_or(-1),"src":e["src"],"rrem":if kind == "conn" { e["pre"]["path"]["rem"].clone() } else { json!(-1) }}));
                 if kind == "conn" {
                     probe_act(&mut out, &mut act, uid, &e["post"]);
                 }
